@@ -233,6 +233,7 @@ class Check:
     def interval(self, site, is_var):
         """GINT: [lo, hi] implied for an integer expression by the comparison facts that hold on every path to `site`
         (only `var < K`, `K < var`, `var == K` atoms with constant K are used; None = unbounded on that side)"""
+        site.flow.need_names(is_var)
         lo = hi = None
         ne = set()
         tr = site.flow.trees
